@@ -551,6 +551,27 @@ func runGatedAdapters(f lib.Flags, res *lib.Result, drv *lib.Driver, rng *rand.R
 			gadapterMonitor(probe, g, o)
 			return len(probe.Violations) > 0
 		}
+		// A Group's Pull runs group.Execute in a goroutine of its own: a panic there cannot be recovered and would
+		// take the whole harness down (and with it every finding made so far).  So first see whether Execute
+		// panics for this strategy and member count with members that answer at once; if so that is the outcome.
+		if g.RPC == "Pull" {
+			allFail := make([]bool, len(g.Behs))
+			for k := range allFail {
+				allFail[k] = true
+			}
+			msg := executePanics(g.Strat, allFail)
+			if msg == "" {
+				msg = executePanics(g.Strat, make([]bool, len(g.Behs)))
+			}
+			if msg != "" {
+				o := obs{Panic: msg, Ret: -1}
+				if answers != nil {
+					tie.Record(g.line(), len(g.Behs) >= 1, g, answers[i], o.canon(t))
+				}
+				gadapterMonitor(mon, g, o)
+				continue
+			}
+		}
 		o := runCase(t)
 		if suspicious(o) {
 			mon.Count("retried-cases")
